@@ -172,6 +172,11 @@ def or_fallback_trees():
                 out.append(("bin", "add", ("or", p, fb), prim[k][0]))
                 out.append(("list", [("or", p, fb), prim[k][0]]))
                 out.append(("or", ("or", p, fb), fb))
+                # an `or` that is COMPLETE inside the fallback, then the failing constant: still inside the outer fallback
+                out.append(("or", p, ("bin", "add", ("or", prim[k][0], prim[k][0]), fb)))
+                out.append(("or", p, ("bin", "add", ("first", ("or", prim[k][0], prim[k][0])), fb)))
+                out.append(("or", p, ("bin", "add", ("or", prim[k][0], ("or", prim[k][0], prim[k][0])), fb)))
+                out.append(("or", p, ("or", ("or", prim[k][0], prim[k][0]), fb)))
         # control: a failing PRIMARY fails in both renderings
         out.append(("or", fails_k[0], prim[k][0]))
     return out
